@@ -156,7 +156,7 @@ class Model:
 
     def tick(self, name):
         self.counts[name] = self.counts.get(name, 0) + 1
-        if name == self.fault:
+        if name == self.fault or self.fault == "*":
             raise ModelBoom(name)
 
     def key_of(self, sec, ctx, a=None):
@@ -182,7 +182,11 @@ class Model:
         return fn()
 
     def render(self, ctx, tag):
-        v = ctx["v"]
+        v = ctx.get("v", "<missing>")
+        if "v" not in ctx:
+            # a section body that runs reads v: under strict_undefined that is a NameError; a section served
+            # from the cache reads nothing
+            self.fault = "*"
 
         def d(a):
             def run():
@@ -290,6 +294,8 @@ class World:
         kw = {}
         if backend == "rec":
             kw = {"cache_impl": "c17rec", "cache_args": dict(targs)}
+            if cfg.get("strict"):
+                kw["strict_undefined"] = True
         elif backend == "beaker-memory":
             kw = {"cache_impl": "beaker", "cache_args": {"type": "memory"}}
         elif backend == "beaker-file":
@@ -389,6 +395,33 @@ class World:
                 elif self.counts != m.counts:
                     viols.append(("render:executions", "a section body runs only when the backend has no value for its key", m.counts, dict(self.counts)))
                 out = "fault:%s" % ("raised" if raised else "served")
+            elif kind == "render_missing":
+                # strict_undefined: a render whose data lacks a name the section bodies read
+                self.counts.clear()
+                m.counts = {}
+                del self.cc.LOG[:]
+                m.lead = self.skeleton("")
+                c = self.ctx("c1")
+                del c["v"]
+                try:
+                    got = t.render(**c)
+                    raised = False
+                except NameError:
+                    raised = True
+                try:
+                    exp = m.render({"k": "ka"}, "cm")
+                    mraised = False
+                except ModelBoom:
+                    mraised = True
+                finally:
+                    m.fault = None
+                if mraised and not raised:
+                    viols.append(("strict:missing-name-not-reported", "a section body that runs reports the name it cannot find", "NameError", "returned %r" % (got[-60:],)))
+                elif raised and not mraised:
+                    viols.append(("strict:name-demanded-by-a-section-served-from-the-cache", "a section served from the cache does not run its body and demands none of its names", "cached output", "NameError"))
+                elif not raised and got != exp:
+                    viols.append(("render:output", "a cached section replays the output of the render that created its entry", exp, got))
+                out = "render_missing:%s" % ("raised" if raised else "served")
             elif kind == "invalidate_body":
                 t.cache.invalidate_body()
                 m.store.pop("render_body", None)
@@ -496,6 +529,8 @@ def events(cfg):
     for ti in range(nt):
         for cn in prog.get("ctxs") or (("c1", "c2", "c3") if prog["key"] == "ctx" else ("c1", "c2")):
             ev.append(("render", ti, cn))
+        if cfg.get("strict"):
+            ev.append(("render_missing", ti))
         if ti == 0 and not cfg.get("nofault"):
             secs = [x for x in ("d", "n", "b") if x in c] + ["anon"]
             if prog.get("extra") == "kwonly":
@@ -624,6 +659,9 @@ def configs(tier):
             cfgs.append({"prog": prog, "backend": be, "max_depth": 30 if tier != "quick" else 8})
             if be == "rec" and prog["args"] != "none":
                 cfgs.append({"prog": prog, "backend": be, "pass_context": True, "max_depth": 30})
+    # strict_undefined: names are demanded by the bodies that run, not by sections served from the cache
+    for sub in (["page"], ["page", "d"], ["d"]):
+        cfgs.append({"prog": {"cached": sub, "key": "default", "flags": "", "args": "none"}, "backend": "rec", "strict": True, "max_depth": 30 if tier != "quick" else 6, "nofault": True})
     # cache keys that are not strings
     for be in backends[:2] if tier == "quick" else backends:
         cfgs.append({"prog": {"cached": ["d"], "key": "ctx", "flags": "", "args": "none", "ctxs": ["c4", "c5", "c6"]}, "backend": be, "max_depth": 30 if tier != "quick" else 7, "nofault": True})
@@ -638,7 +676,7 @@ def configs(tier):
 def label(c):
     p = c["prog"]
     return "cached=%s%s key=%s flags=%s args=%s backend=%s%s%s" % (
-        "+".join(p["cached"]), "+kwonly" if p.get("extra") else "", p["key"], p["flags"] or "-", p["args"], c["backend"], " ctx" if c.get("pass_context") else "", " uris=%s" % c["uris"] if c.get("uris") else "")
+        "+".join(p["cached"]), "+kwonly" if p.get("extra") else "", p["key"], p["flags"] or "-", p["args"], c["backend"], " ctx" if c.get("pass_context") else "", (" uris=%s" % c["uris"] if c.get("uris") else "") + (" strict" if c.get("strict") else "") + (" ctxs=%s" % "+".join(p["ctxs"]) if p.get("ctxs") else ""))
 
 
 def plan(tier, seed):
